@@ -293,6 +293,13 @@ def run(repo: Repo, rep: Report, tier: str) -> None:
     n += rule_expand(repo, rep)
     n += rule_forward(repo, rep)
     n += rule_fading_noise(repo, rep)
+    from ..speciallint import lint_rng_discipline
+
+    for cname in ("FlatFadingChannel",):
+        ci_ = repo.cls(AN, cname)
+        for m_ in ci_.methods.values():
+            if m_.name != "__init__":
+                n += lint_rng_discipline(rep, m_, "BLOCK-INDEP")
     rep.floor("C13 rule instances", n, 19)
     rep.decided_clauses += [
         "unit mean-square gain for Rayleigh and Rician; Rician LOS/scatter power ratio K",
